@@ -29,7 +29,8 @@ Record lbond := mkLB { lb_ord : Z; lb_ring : bool }.
 
 (* ------------------------------------------------------------------------------------------------------------ *)
 (* 2. query atoms.  Tuple-valued fields are Python tuples ("empty tuple = unconstrained");
-      x_rings_set = true when the object holds a *set* in _ring_sizes (what from_atom(ring_sizes=True) stores)    *)
+      x_rings_set = true when the object holds a *set* in _ring_sizes (only reachable by writing the private slot:
+      from_atom(ring_sizes=True) stored one before fix e7bbf46; the field is kept for the C09 development)            *)
 
 Record qx := mkQX {
   x_chg : Z; x_rad : bool;
@@ -125,7 +126,11 @@ Definition qbond_match (q : qbond) (b : lbond) : bool :=
   | None => zmem (lb_ord b) (qb_ord q)
   end.
 
-(* QueryElement.from_atom(atom, neighbors, hybridization, heteroatoms, hydrogens, ring_sizes) (stereo left out) *)
+(* QueryElement.from_atom(atom, neighbors, hybridization, heteroatoms, hydrogens, ring_sizes) (stereo left out);
+   ring_sizes=True stores  tuple(sorted(atom.ring_sizes)) or (0,)  *)
+Fixpoint insert_z (x : Z) (l : list Z) : list Z :=
+  match l with [] => [x] | y :: r => if x <=? y then x :: l else y :: insert_z x r end.
+Definition sort_z (l : list Z) : list Z := fold_right insert_z [] l.
 Definition from_atom (a : latom) (f_nb f_hyb f_het f_h f_rings : bool) : qatom :=
   QElem (la_num a) (la_iso a)
     (mkQX (la_chg a) (la_rad a)
@@ -133,8 +138,8 @@ Definition from_atom (a : latom) (f_nb f_hyb f_het f_h f_rings : bool) : qatom :
           (if f_hyb then [la_hyb a] else [])
           (if f_h then match la_h a with Some h => [h] | None => [] end else [])
           (if f_het then [la_het a] else [])
-          (if f_rings then la_rings a else [])          (* query._ring_sizes = atom.ring_sizes : the SET itself *)
-          f_rings).
+          (if f_rings then match sort_z (la_rings a) with [] => [0] | l => l end else [])
+          false).
 
 (* ------------------------------------------------------------------------------------------------------------ *)
 (* 3. calc_labels                                                                                                 *)
@@ -235,7 +240,8 @@ Fixpoint chg_search (l : str) : option (str * str * str) :=
            end
   end.
 
-(* charge_dict[group] for the groups the regex can produce; None = KeyError *)
+(* charge_dict[group] for the groups the regex can produce; None = KeyError, which _query_parse turns into
+   IncorrectSmarts('charge token invalid') *)
 Definition charge_dict (g : str) : option Z :=
   match g with
   | ["+"%char] => Some 1 | ["+"%char; "1"%char] => Some 1 | ["+"%char; "+"%char] => Some 2 | ["+"%char; "2"%char] => Some 2
@@ -372,7 +378,7 @@ Definition query_parse (token : str) : pyres parsed :=
   let chg := chg_search t1 in
   match (match chg with
          | None => Ok (None, t1)
-         | Some (a, g, b) => match charge_dict g with Some c => Ok (Some c, (a ++ b)%list) | None => Err KeyError end
+         | Some (a, g, b) => match charge_dict g with Some c => Ok (Some c, (a ++ b)%list) | None => Err IncorrectSmarts end
          end) with
   | Err e => Err e
   | Ok (charge, t2) =>
@@ -394,10 +400,6 @@ Definition query_parse (token : str) : pyres parsed :=
 
 (* ------------------------------------------------------------------------------------------------------------ *)
 (* 5. what smarts() builds from the parsed dict: class dispatch and the normalising setters                       *)
-
-Fixpoint insert_z (x : Z) (l : list Z) : list Z :=
-  match l with [] => [x] | y :: r => if x <=? y then x :: l else y :: insert_z x r end.
-Definition sort_z (l : list Z) : list Z := fold_right insert_z [] l.
 
 (* _validate(value, prop) on a list / the ints the parser produces *)
 Definition validate_list (lo hi : Z) (l : list Z) : pyres (list Z) :=
